@@ -111,7 +111,14 @@ struct World : KernelHooks, ModelHost {
 	long fault_turn = -1; uint64_t faults_fired = 0; long canary_turn = -1;
 	// state oracle after injected allocation failures (world_shadow.cpp): the element image must stay explicable by the reference model with
 	// every request that was being processed when an allocation failed either carried out or not
-	struct Cand { Model m; bool alive = true; int parent = 0; };
+	struct Entitled { int c; JV fetchid; std::string event, path; bool check_value; uint64_t vhash; };
+	uint64_t model_version = 0, snap_version = ~0ULL;   // snapshots are only taken when something happened since the last one (a connection read byte by byte makes hundreds of reads per message)
+	struct Cand { Model m; bool alive = true; int parent = 0; std::vector<Entitled> entitled; bool entitled_overflow = false; };
+	struct PendingNotify { int c; Frame f; };
+	std::vector<PendingNotify> shadow_unexplained;   // notifications no alternative explains yet (the end of a connection may still do so within this turn)
+	void shadow_check_notify(Client &cl, const Frame &f);
+	bool shadow_explain_notify(int c, const Frame &f);
+	void shadow_settle_unexplained(bool final);
 	struct ShadowGet { std::vector<int> rc; std::vector<JV> sets; bool ambiguous = false; };
 	bool shadow_enabled = false, shadow_active = false, shadow_undecidable = false, shadow_probe_sent = false; std::string shadow_why;
 	std::vector<Cand> cands, snap_cands; std::vector<Input> since_snap;
